@@ -274,6 +274,8 @@ func runC05(c *Ctx) {
 	c.Floor("C05-R2", "per-scope wipes in lock()", nPerScope, 3)
 	checkZeroMethodsWipeInPlace(c, "C05-R2")
 	checkEvictedAccountsAreWiped(c, "C05-R2")
+	checkEvictedAddressesAreWiped(c, "C05-R2")
+	checkWipePrimitiveCoversWholeSlice(c, "C05-R2")
 	checkUnlockedFlagSetLast(c, "C05-R3")
 	// every place the managers keep address OBJECTS (which carry clear-text keys once unlocked) is visited by lock():
 	// the address cache, but also the per-account "last address" objects, which loadAccountInfo rebuilds from the
@@ -997,4 +999,113 @@ func checkUnlockedFlagSetLast(c *Ctx, rule string) {
 		}
 	}
 	c.Floor(rule, "sites clearing the locked flag", n, 1)
+}
+
+// checkEvictedAddressesAreWiped: lock() wipes the clear-text key of every address object in the scoped manager's address
+// cache; an object removed from that cache is out of its reach. A function that evicts an entry (delete on
+// ScopedKeyManager.addrs) locks the looked-up object first: every path to the delete passes a call of an address
+// `lock` method (on the value looked up in that map), except where nothing was cached.
+func checkEvictedAddressesAreWiped(c *Ctx, rule string) {
+	p := c.P
+	n := 0
+	for _, fn := range p.FuncsIn("waddrmgr") {
+		for _, call := range callsNamed(fn, "delete") {
+			if len(call.Call.Args) == 0 {
+				continue
+			}
+			if tn, f, _, okf := fieldOf(stripConv(call.Call.Args[0])); !okf || tn != "ScopedKeyManager" || f != "addrs" {
+				continue
+			}
+			n++
+			locksCached := func(ins ssa.Instruction) bool {
+				lc, ok := ins.(*ssa.Call)
+				if !ok || calleeShort(&lc.Call) != "lock" || len(lc.Call.Args) == 0 {
+					return false
+				}
+				for _, o := range (&Slicer{P: p, KeepExtract: true}).Origins(lc.Call.Args[0]) {
+					if lk, ok := o.(*ssa.Lookup); ok {
+						if _, f, _, okf := fieldOf(stripConv(lk.X)); okf && f == "addrs" {
+							return true
+						}
+					}
+					ta, isTA := o.(*ssa.TypeAssert)
+					if ex, isEx := o.(*ssa.Extract); isEx && !isTA {
+						ta, isTA = ex.Tuple.(*ssa.TypeAssert)
+						if lc2, ok := ex.Tuple.(*ssa.Call); ok && calleeShort(&lc2.Call) == "loadAndCacheAddress" {
+							return true
+						}
+					}
+					if isTA {
+						for _, o2 := range (&Slicer{P: p, KeepExtract: true}).Origins(ta.X) {
+							if lk, ok := o2.(*ssa.Lookup); ok {
+								if _, f, _, okf := fieldOf(stripConv(lk.X)); okf && f == "addrs" {
+									return true
+								}
+							}
+							// ... or the object the function itself just loaded into the cache
+							if ex, ok := o2.(*ssa.Extract); ok {
+								if lc2, ok := ex.Tuple.(*ssa.Call); ok && calleeShort(&lc2.Call) == "loadAndCacheAddress" {
+									return true
+								}
+							}
+						}
+					}
+				}
+				return false
+			}
+			nLock := 0
+			for _, ci := range callsOf(fn) {
+				if locksCached(ci) {
+					nLock++
+				}
+			}
+			c.Check(rule, "evicted-address-wiped-first:"+fnName(fn), call.Pos(), nLock > 0,
+				fnName(fn)+" removes an address object from the scoped manager's cache without locking it first: evicted while the manager is unlocked, the object keeps its clear-text private key (or script) and Lock() no longer reaches it")
+		}
+	}
+	c.Floor(rule, "address-cache evictions", n, 1)
+}
+
+// checkWipePrimitiveCoversWholeSlice: every variable-length wipe (passphrase buffers, clear-text scripts, serialised
+// keys) goes through zero.Bytes. Its length argument is unbounded (a secret script may be several kilobytes), so it
+// can only clear all of it with a loop over the slice (or the clear builtin): a fixed number of block copies clears a
+// prefix and leaves the tail of a long secret in memory after Lock.
+func checkWipePrimitiveCoversWholeSlice(c *Ctx, rule string) {
+	p := c.P
+	fn := p.Func("internal/zero", "", "Bytes")
+	if fn == nil {
+		c.Unresolved(rule, "internal/zero.Bytes")
+		return
+	}
+	ok := len(callsNamed(fn, "clear")) > 0
+	for _, l := range loopsOf(fn) {
+		// the loop writes into the parameter slice (element store, or copy into it) and has no exit other than its
+		// header's
+		writes := l.containsInstr(func(ins ssa.Instruction) bool {
+			switch x := ins.(type) {
+			case *ssa.Store:
+				if ia, isIA := x.Addr.(*ssa.IndexAddr); isIA {
+					for _, o := range (&Slicer{P: p}).Origins(ia.X) {
+						if _, isPrm := o.(*ssa.Parameter); isPrm {
+							return true
+						}
+					}
+				}
+			case *ssa.Call:
+				if calleeShort(&x.Call) == "copy" && len(x.Call.Args) == 2 {
+					for _, o := range (&Slicer{P: p}).Origins(x.Call.Args[0]) {
+						if _, isPrm := o.(*ssa.Parameter); isPrm {
+							return true
+						}
+					}
+				}
+			}
+			return false
+		})
+		if writes && len(l.EarlyExitsAny(p)) == 0 {
+			ok = true
+		}
+	}
+	c.Check(rule, "wipe-primitive-covers-whole-slice", fn.Pos(), ok,
+		"zero.Bytes does not loop over the slice it is given (and does not use clear): only a fixed-size prefix is wiped, so the tail of a long secret (a clear-text script of more than two blocks) survives Lock() in memory")
 }
